@@ -174,11 +174,8 @@ impl AmbiguityResolver {
         let match_pos = context.match_position?;
 
         // Extract preceding context
-        let preceding = if match_pos > 0 {
-            &line[..match_pos]
-        } else {
-            ""
-        };
+        // (the position is a byte column of the raw line; `line` may have been decoded lossily)
+        let preceding = line.get(..match_pos).unwrap_or("");
 
         if let Some(style) =
             LanguageHeuristics::suggest_style(file_path, preceding, possible_styles)
@@ -239,11 +236,8 @@ impl AmbiguityResolver {
         let extension = file_path.extension()?.to_str()?;
 
         // Extract preceding word
-        let preceding = if match_pos > 0 {
-            &line[..match_pos]
-        } else {
-            ""
-        };
+        // (the position is a byte column of the raw line; `line` may have been decoded lossily)
+        let preceding = line.get(..match_pos).unwrap_or("");
 
         // Find the last word before the match
         let preceding_word = preceding.split_whitespace().last().unwrap_or("");
